@@ -1,1 +1,8 @@
 """Narrow matchers for open known findings (mirrors of the taint predicates named in the TLA+ specs)."""
+
+
+def PrefilledTargetResume(**f):
+    """F13 (spec: DagExec.StaleByF13): store into a user target that held data in EVERY chunk before the computation;
+    crash; resume -> the store operation looks complete and is skipped, stale chunks stay.  Matches only: the program
+    stores into a pre-populated existing target, the run was resumed, and the wrong values are in that target."""
+    return bool(f.get("resumed") and f.get("prefilled_target") and f.get("kind") == "values")
